@@ -442,6 +442,32 @@ def _same_js(a, b, tol):
     return abs(fx - fy) <= tol * max(1.0, abs(fx), abs(fy))
 
 
+_REPLAYED = {}
+
+
+def _replay_once(mod, rec):
+    """replay a counterexample on the real library ONCE (a defect with process-global state would make a second
+    replay in the same process start from a polluted state); memoising caches of the real modules are cleared first"""
+    key = json.dumps([rec.get('obligation'), rec.get('clause'), rec.get('call'), rec.get('inputs')], sort_keys=True, default=str)
+    if key in _REPLAYED:
+        return _REPLAYED[key]
+    try:
+        for name, m in list(sys.modules.items()):
+            if name == 'sempler' or name.startswith('sempler.') or name == 'drf' or name.startswith('drf.'):
+                for v in list(vars(m).values()):
+                    cc = getattr(v, 'cache_clear', None)
+                    if callable(cc):
+                        cc()
+    except Exception:
+        pass
+    try:
+        ok, detail = mod.replay(rec)
+    except BaseException as e:
+        ok, detail = False, "replay crashed: %s: %s" % (type(e).__name__, e)
+    _REPLAYED[key] = (ok, detail)
+    return ok, detail
+
+
 # ---------------------------------------------------------------------------
 # known findings
 
@@ -530,10 +556,7 @@ def run_check(modname, pid, tier, meta):
                 if r['violations'] and not os.environ.get('VERIF_ALL_VIOLATIONS'):
                     hit = False
                     for rec in r['violations']:
-                        try:
-                            ok, _ = mod.replay(rec)
-                        except BaseException:
-                            ok = False
+                        ok = _replay_once(mod, rec)[0]
                         if ok:
                             hit = True
                             break
@@ -605,10 +628,7 @@ def run_check(modname, pid, tier, meta):
         if key in seen:
             continue
         seen.add(key)
-        try:
-            ok, detail = mod.replay(rec)
-        except BaseException as e:
-            ok, detail = False, "replay crashed: %s: %s" % (type(e).__name__, e)
+        ok, detail = _replay_once(mod, rec)
         rec['replay_detail'] = detail
         if not ok:
             msgs.append("INCONCLUSIVE property=%s counterexample did not reproduce on the real code (obligation %s, clause %s): %s | inputs=%s"
